@@ -488,9 +488,18 @@ class Interp:
             op = rv["op"]
             a = self.eval_operand(st, inst, rv["args"][0])
             b = self.eval_operand(st, inst, rv["args"][1])
+            wide = False
+            try:
+                o0 = rv["args"][0]
+                pl0 = o0.get("copy") or o0.get("move") if isinstance(o0, dict) else None
+                if pl0 is not None:
+                    t0 = self.place_ty(inst, pl0)
+                    wide = t0.get("s") in ("u128", "i128")
+            except Exception:
+                wide = False
             if op in ("Add", "Sub", "Mul", "AddUnchecked", "SubUnchecked", "MulUnchecked", "Div", "Rem", "BitAnd", "BitOr", "Shl", "Shr"):
                 r = self.arith(op, a, b)
-                if op in ("Add", "Sub", "Mul"):
+                if op in ("Add", "Sub", "Mul") and not (wide and op != "Sub"):
                     self.eff(node, idx, "ARITH", op=op, a=as_poly(a), b=as_poly(b), checked=False, line=line, how="bare")
                 if op == "Sub" and isinstance(r, Poly) and not r.is_const() and not implies_ge0(st.facts, r):
                     # an unchecked unsigned subtraction (overflow checks off) that is not known to stay >= 0 may wrap. The value keeps its polynomial
@@ -502,7 +511,9 @@ class Interp:
             if op in ("AddWithOverflow", "SubWithOverflow", "MulWithOverflow"):
                 base = op[:3]
                 r = self.arith(base, a, b)
-                self.eff(node, idx, "ARITH", op=base, a=as_poly(a), b=as_poly(b), checked=True, line=line, how="debug-assert")
+                if not (wide and base != "Sub"):
+                    # (sums and products of values widened from usize to u128 cannot overflow: no arithmetic obligation)
+                    self.eff(node, idx, "ARITH", op=base, a=as_poly(a), b=as_poly(b), checked=True, line=line, how="debug-assert")
                 return ("pair", r, ("ovf", base, as_poly(a), as_poly(b)))
             if op in NEG:
                 if self.is_ptrlike(a) or self.is_ptrlike(b):
